@@ -408,6 +408,12 @@ def _membership(v: ast.AST, param: str):
             return set(table[v.attr])
     if isinstance(v, ast.Compare) and len(v.ops) == 1 and isinstance(v.ops[0], (ast.Is, ast.Eq)) and dotted(v.left) == param and dotted(v.comparators[0]) in ("S.NaN", "nan"):
         return {"S.NaN"}
+    # getattr(factor, "is_zero", None) is True
+    if isinstance(v, ast.Compare) and len(v.ops) == 1 and isinstance(v.ops[0], ast.Is) and isinstance(v.comparators[0], ast.Constant) and v.comparators[0].value is True:
+        l = v.left
+        if isinstance(l, ast.Call) and dotted(l.func) == "getattr" and len(l.args) >= 2 and dotted(l.args[0]) == param and isinstance(l.args[1], ast.Constant):
+            return _membership(ast.Attribute(value=ast.Name(id=param, ctx=ast.Load()), attr=l.args[1].value, ctx=ast.Load()), param)
+        return _membership(l, param)
     return None
 
 
